@@ -196,23 +196,68 @@ def evidence(k):
                       "kind": h.get("kind")} for h in hs]}
 
 
+def _harness_file(harness):
+    for g, G in GROUPS.items():
+        if harness in G["quick"] or harness in G.get("thorough", []):
+            return G["hook_file"], os.path.join(C.VERIF, "kani", os.path.basename(_hook_target(G)))
+    return None, None
+
+
+def _hook_target(G):
+    # the harness file a hook line includes: /verif/kani/<name>.rs ; names follow the hooked source file
+    return {"crates/liwe/src/markdown/reader.rs": "reader.rs", "crates/liwe/src/graph.rs": "graph.rs",
+            "crates/liwe/src/graph/sections_builder.rs": "sections_builder.rs"}[G["hook_file"]]
+
+
 def playback(repo, harness):
-    """Ask Kani for the concrete counterexample of a failed harness and replay it natively on the real
-    code (scratch copy of the repository, removed afterwards)."""
+    """Ask Kani for the concrete counterexample of a failed harness (print mode, on the tree under check), then
+    replay it NATIVELY on the real code: a scratch copy of the repository whose hook lines point at a scratch copy
+    of the harness files, with the generated #[test] appended, run by `cargo kani playback`.  Scratch copies and
+    their build output are removed afterwards."""
     out = {"found": False, "text": ""}
-    # print mode on the real tree (read-only for sources)
     cmd = ["timeout", "900", "cargo", "kani", "-p", "liwe", "--harness", harness, "-Z", "concrete-playback",
            "--concrete-playback=print", "--output-format", "terse"]
     p = subprocess.run(cmd, cwd=repo, env=_env(), capture_output=True, text=True)
     txt = p.stdout + p.stderr
     m = re.search(r"```\n(.*?)```", txt, re.S)
-    if m:
-        out["found"] = True
-        out["text"] = ("harness %s fails; concrete values found by CBMC, as a unit test that calls the real code:\n%s\n"
-                       "replay: paste into the harness module and run `cargo kani playback -Z concrete-playback --test <name>`\n"
-                       % (harness, m.group(1)))
-    else:
+    if not m:
         out["text"] = "kani reported FAILED for %s but printed no concrete playback:\n%s" % (harness, txt[-1500:])
+        return out
+    test_src = m.group(1)
+    mt = re.search(r"fn (kani_concrete_playback_\w+)", test_src)
+    tname = mt.group(1) if mt else None
+    out["found"] = True
+    out["text"] = "harness %s fails; concrete values found by CBMC, as a unit test that calls the real code:\n%s\n" % (harness, test_src)
+    hook_file, hfile = _harness_file(harness)
+    if not tname or not hfile:
+        return out
+    scratch = tempfile.mkdtemp(prefix="vx_kani_replay_")
+    try:
+        subprocess.run(["rsync", "-a", "--exclude", "target", "--exclude", ".git", repo.rstrip("/") + "/", scratch + "/repo/"], check=True)
+        shutil.copytree(os.path.join(C.VERIF, "kani"), os.path.join(scratch, "kani"))
+        for g, G in GROUPS.items():
+            f = os.path.join(scratch, "repo", G["hook_file"])
+            t = open(f).read().replace("/verif/kani/", scratch + "/kani/")
+            open(f, "w").write(t)
+        with open(os.path.join(scratch, "kani", os.path.basename(hfile)), "a") as f:
+            f.write("\n" + test_src + "\n")
+        env = _env()
+        env["CARGO_TARGET_DIR"] = os.path.join(scratch, "target")
+        env["RUST_BACKTRACE"] = "0"
+        pc = ["timeout", "1500", "cargo", "kani", "playback", "-Z", "concrete-playback", "-p", "liwe", "--", tname]
+        r = subprocess.run(pc, cwd=os.path.join(scratch, "repo"), env=env, capture_output=True, text=True)
+        log = r.stdout + r.stderr
+        keep = [l for l in log.split("\n") if "panicked at" in l or "assertion" in l or "test result" in l or l.startswith("test ")
+                or "index out of bounds" in l or "overflow" in l]
+        if "test result: FAILED" in log:
+            out["text"] += ("native replay (cargo kani playback -Z concrete-playback -p liwe -- %s, real code compiled natively): "
+                            "the test FAILS as predicted:\n%s\n" % (tname, "\n".join(keep[:12])))
+        else:
+            out["text"] += "native replay did not reproduce the failure (exit %d):\n%s\n" % (r.returncode, "\n".join(keep[:12]) or log[-800:])
+    except Exception as e:  # noqa
+        out["text"] += "native replay could not be run: %s\n" % e
+    finally:
+        shutil.rmtree(scratch, ignore_errors=True)
     return out
 
 
